@@ -81,8 +81,13 @@ func NewCompiler(
 		symbolTable = NewSymbolTable()
 	}
 
-	// add builtin functions to the symbol table
+	// add builtin functions to the symbol table; a variable the embedder
+	// already defined under the name of a builtin keeps shadowing it
 	for idx, fn := range builtinFuncs {
+		if s, _, ok := symbolTable.Resolve(fn.Name, false); ok &&
+			s.Scope != ScopeBuiltin {
+			continue
+		}
 		symbolTable.DefineBuiltin(idx, fn.Name)
 	}
 
